@@ -72,3 +72,30 @@ func (iv *Interleaver) Run(first, switchFirst, switchSecond int, a, b func(yield
 
 // Yields returns how many yield points each thread passed in the last run.
 func (iv *Interleaver) Yields() (int, int) { return iv.count[0], iv.count[1] }
+
+// AllSchedules runs bodies a and b under every schedule with at most two
+// switches (thread `first` runs until its i-th yield point, the other until its
+// j-th or to its end, then the first one finishes) and calls judge after each.
+// The yield points are whatever the bodies pass to their yield function
+// (normally every Read or Write call of a wrapped reader/writer).
+func (iv *Interleaver) AllSchedules(a, b func(yield func()), judge func(first, i, j int)) (schedules int) {
+	iv.Run(0, -1, -1, a, b)
+	ya, yb := iv.Yields()
+	for first := 0; first < 2; first++ {
+		n1, n2 := ya, yb
+		if first == 1 {
+			n1, n2 = yb, ya
+		}
+		for i := 1; i <= n1; i++ {
+			for j := -1; j <= n2; j++ {
+				if j == 0 {
+					continue
+				}
+				iv.Run(first, i, j, a, b)
+				schedules++
+				judge(first, i, j)
+			}
+		}
+	}
+	return schedules
+}
